@@ -241,6 +241,7 @@ func (ps *Pieces) AddData(index uint32, begin uint32, data []byte, peer uint32) 
 		return
 	}
 
+	verifYield("adddata.prelock", index)
 	ps.mu.Lock()
 	defer ps.mu.Unlock()
 
@@ -313,6 +314,7 @@ func (ps *Pieces) Finalise(index uint32, h hash.Hash) (done bool, peers []uint32
 		return
 	}
 
+	verifYield("finalise.prelock", index)
 	ps.mu.Lock()
 	defer ps.mu.Unlock()
 
@@ -335,8 +337,10 @@ func (ps *Pieces) Finalise(index uint32, h hash.Hash) (done bool, peers []uint32
 	ps.pieces[index].setState(0, stateBusy)
 	ps.mu.Unlock()
 
+	verifYield("finalise.hashing", index)
 	hsh := sha1.Sum(data)
 	hh := hash.Hash(hsh[:])
+	verifYield("finalise.hashed", index)
 
 	ps.mu.Lock()
 	peers = ps.pieces[index].peers
@@ -365,6 +369,7 @@ func (ps *Pieces) del(p uint32, force bool) (done bool, complete bool) {
 		ps.mu.Unlock()
 		t := 10 * time.Microsecond
 		for ps.pieces[p].Busy() {
+			verifYield("del.wait", p)
 			time.Sleep(t)
 			if t < 10*time.Millisecond {
 				t = t * 2
@@ -480,6 +485,7 @@ func (ps *Pieces) Expire(bytes int64, available []uint16, f func(index uint32)) 
 		if todo <= 0 {
 			break
 		}
+		verifYield("expire.visit", index)
 		ps.mu.Lock()
 		done, complete := ps.del(index, false)
 		ps.mu.Unlock()
